@@ -11,9 +11,12 @@
 package c07
 
 import (
+	"context"
 	"encoding/xml"
 	"fmt"
 	"strings"
+	"sync"
+	"time"
 
 	"mellium.im/xmlstream"
 	"mellium.im/xmpp"
@@ -448,6 +451,134 @@ func (c *ctx) session(ns string, elements []string, progs []c08.Prog, class stri
 	}
 }
 
+// pend is a local request that is waiting for its response while the peer's input is served.
+type pend struct {
+	id   string
+	name xml.Name // name of the request's start element as given to SendIQ
+}
+
+// pending runs a session with local SendIQ requests outstanding (each in its own goroutine,
+// parked in SendIQ until a response is delivered or the run is over) and then serves the
+// peer's elements.  The model keeps the table of pending requests as part of the serve state.
+func (c *ctx) pending(ns string, pends []pend, elements []string, progs []c08.Prog, class string) {
+	r := c.r
+	local, remote := c08.LocalJID, c08.RemoteJID
+	if ns == c08.NSServer {
+		local, remote = c08.LocalSrv, c08.RemoteSrv
+	}
+	body := []byte(strings.Join(elements, "") + "</stream:stream>")
+	toks := c08.Tokens(ns, body)
+	var mu sync.Mutex
+	var delivered []string
+	var wg sync.WaitGroup
+	before := func(s *xmpp.Session, out *common.SafeBuffer) func() {
+		ctx, cancel := context.WithCancel(context.Background())
+		for _, p := range pends {
+			p := p
+			wg.Add(1)
+			want := out.Len()
+			go func() {
+				defer wg.Done()
+				st := xml.StartElement{Name: p.name, Attr: []xml.Attr{at("type", "get"), at("id", p.id), at("to", "peer@example.net")}}
+				resp, err := s.SendIQ(ctx, xmlstream.Wrap(xmlstream.Wrap(nil, xml.StartElement{Name: xml.Name{Space: "urn:q", Local: "q"}}), st))
+				if err != nil || resp == nil {
+					return
+				}
+				for {
+					tok, err := resp.Token()
+					if err != nil || tok == nil {
+						break
+					}
+				}
+				mu.Lock()
+				delivered = append(delivered, p.id)
+				mu.Unlock()
+				resp.Close()
+			}()
+			// wait until the request is on the wire: its table entry exists from then on
+			for i := 0; i < 5000 && out.Len() == want; i++ {
+				time.Sleep(200 * time.Microsecond)
+			}
+		}
+		return func() { cancel(); wg.Wait() }
+	}
+	res := c08.ServeHook(ns, local, remote, body, progs, nil, before)
+	var pf []string
+	for _, p := range pends {
+		pf = append(pf, fmt.Sprintf("%x=%x=%x", p.id, p.name.Space, p.name.Local))
+	}
+	line := strings.Join([]string{"servep", c08.NsField(ns), common.HexS(res.LocalBare), c08.JidMap(toks), common.Join(pf, ","), common.EncToks(toks), c08.EncProgs(progs)}, " ")
+	lines := []string{r.Prop + " " + line, "#pending " + common.HexS(strings.Join(elements, "\x00"))}
+	if res.Stall || res.Panic != "" {
+		r.Line(line, "PANIC-OR-STALL")
+		r.Fail("no-panic", "pending-stall", lines, res.Panic)
+		return
+	}
+	els, _, _ := c08.Written(ns, res.Out)
+	wobs, _ := c08.WrittenObs(els)
+	cls := c08.ErrClass(res.Err)
+	mu.Lock()
+	var dl []string
+	for _, d := range delivered {
+		dl = append(dl, fmt.Sprintf("%x", d))
+	}
+	mu.Unlock()
+	r.Line(line, wobs+" "+cls+" "+common.Join(dl, ","))
+	r.Case(line, true, fmt.Sprintf("%s/pending-%d/%d/%s", class, len(pends), len(elements), cls))
+	if cls != "clean" {
+		return
+	}
+	// every get/set with an id is answered exactly once whatever is pending (the handlers of
+	// this runner write nothing, so: exactly one automatic error per request)
+	var outEls []c08.Elem
+	for _, e := range els {
+		if !e.StreamError {
+			outEls = append(outEls, e)
+		}
+	}
+	depth := 0
+	nreq := 0
+	for _, t := range toks {
+		switch tt := t.(type) {
+		case xml.StartElement:
+			if depth == 0 && tt.Name.Local == "iq" && (tt.Name.Space == c08.NSClient || tt.Name.Space == c08.NSServer) {
+				typ, id := c08AttrVal(tt.Attr, "type"), c08AttrVal(tt.Attr, "id")
+				if (typ == "get" || typ == "set") && id != "" {
+					nreq++
+					got := 0
+					for _, e := range outEls {
+						if isReply(e.Toks, id, ns) {
+							got++
+						}
+					}
+					same := 0
+					for _, t2 := range toks {
+						if s2, ok := t2.(xml.StartElement); ok && s2.Name.Local == "iq" && c08AttrVal(s2.Attr, "id") == id {
+							ty := c08AttrVal(s2.Attr, "type")
+							if ty == "get" || ty == "set" {
+								same++
+							}
+						}
+					}
+					if got != same {
+						key := "pending-missing"
+						if got > same {
+							key = "pending-double"
+						}
+						r.Fail("answered-once", key, lines, fmt.Sprintf("request id %q: %d replies on the wire, want %d, with %d local requests pending", id, got, same, len(pends)))
+					}
+				}
+			}
+			depth++
+		case xml.EndElement:
+			depth--
+		}
+	}
+	if len(outEls) != nreq {
+		r.Fail("no-auto-reply", "pending-added", lines, fmt.Sprintf("%d elements written, want %d (one per request, nothing for replies)", len(outEls), nreq))
+	}
+}
+
 var payloads = []string{
 	`<q xmlns="urn:q"/>`,
 	``,
@@ -502,6 +633,42 @@ func Run(r *common.Run) error {
 		}
 		for i, l := range lines {
 			f := strings.Fields(l)
+			if len(f) == 2 && f[0] == "#pending" && i > 0 {
+				sb, err := common.UnHex(f[1])
+				if err != nil {
+					return err
+				}
+				g := strings.Fields(lines[i-1])
+				if len(g) < 8 {
+					continue
+				}
+				ns := c08.NSClient
+				if g[2] == "s" {
+					ns = c08.NSServer
+				}
+				var ps []pend
+				if g[5] != "-" {
+					for _, x := range strings.Split(g[5], ",") {
+						p := strings.Split(x, "=")
+						if len(p) != 3 {
+							continue
+						}
+						a, _ := common.UnHex(p[0])
+						b, _ := common.UnHex(p[1])
+						d, _ := common.UnHex(p[2])
+						if p[1] == "" {
+							b = nil
+						}
+						ps = append(ps, pend{string(a), xml.Name{Space: string(b), Local: string(d)}})
+					}
+				}
+				progs, err := c08.DecProgs(g[7])
+				if err != nil {
+					return err
+				}
+				c.pending(ns, ps, strings.Split(string(sb), "\x00"), progs, "replay")
+				continue
+			}
 			if len(f) == 2 && f[0] == "#session" && i > 0 {
 				sb, err := common.UnHex(f[1])
 				if err != nil {
@@ -687,6 +854,30 @@ func Run(r *common.Run) error {
 			progs = append(progs, p)
 		}
 		c.session(ns, elements, progs, "session")
+	}
+
+	// pending local requests: 0..2 SendIQ calls outstanding x incoming IQs of every type with
+	// an id equal to / different from the pending ones
+	pendSets := [][]pend{nil, {{"p1", name("iq")}}, {{"p1", name("iq")}, {"p2", xml.Name{Space: c08.NSClient, Local: "iq"}}}}
+	for _, ns := range []string{c08.NSClient, c08.NSServer} {
+		for _, ps := range pendSets {
+			for _, typ := range []string{"get", "set", "result", "error", "-"} {
+				for _, id := range []string{"p1", "p2", "zz"} {
+					for _, l := range []struct{ local, ns string }{{"iq", ""}, {"iq", c08.NSClient}, {"iq", c08.NSServer}, {"message", ""}} {
+						e := element(l.local, l.ns, id, typ, "a@example.org/r", "-", "", payloads[0])
+						c.pending(ns, ps, []string{e}, nil, "exhaustive-pending")
+					}
+				}
+			}
+			// sequences: a request and a response with the same id in both orders, then again
+			for _, seq := range [][]string{
+				{element("iq", "", "p1", "get", "-", "-", "", payloads[0]), element("iq", "", "p1", "result", "-", "-", "", ""), element("iq", "", "p1", "set", "-", "-", "", payloads[0])},
+				{element("iq", "", "p1", "result", "-", "-", "", payloads[3]), element("iq", "", "p1", "result", "-", "-", "", ""), element("iq", "", "p1", "get", "-", "-", "", payloads[0])},
+				{element("iq", "", "p2", "error", "-", "-", "", ""), element("iq", "", "p2", "get", "-", "-", "", payloads[0]), element("iq", "", "p1", "result", "-", "-", "", "")},
+			} {
+				c.pending(ns, ps, seq, []c08.Prog{progOf(nil, "x", 1, "ok"), progOf(nil, "x", 0, "ok")}, "exhaustive-pending")
+			}
+		}
 	}
 
 	// random
